@@ -68,11 +68,13 @@ PROPS = {
         families=[('floor', 400, 12000, 'small', 'large')],
         rule='F_floor scenarios: layered production lines (sources incl. cycle 0 and finite budgets, handlers, processors with resources/callbacks/work orders, buffers with delay and capacity, batchers, decision gates, flow controllers, shared groups reached through several paths, sinks), scripted failures/shutdowns/restores/blocking/capacity changes, many single steps then runs, generated from VERIF_SEED (corpus/floor first); '
              'non-trivial = at least 8 parts received by devices and 3 supplied by sources; distinct by scenario text',
-        explanation='Single-slot invariant proved for every device in every reachable state; every change of a device during any event action is one of the guarded transformers '
-                    '(a part enters only an empty device, moves input->output only as itself); a failure loses exactly the input part. The census equation itself is checked by the '
-                    'census monitor on the implementation and by the lock-step (full device contents after every event). PARTIAL.',
-        assumptions=['well-posed layouts (DAG, every device reaches a sink)', 'user callbacks are drawn from the scripted callback language (DESIGN.md appendix A)',
-                     'global census equation not yet a theorem']),
+        explanation='The census equation (generated = inside + delivered + lost, as multisets of part identities) proved for every state any well-formed scenario can reach; '
+                    'ingredients: an offer raises the census by the part exactly when accepted (induction over the recursive hand-over), a waiting part stays where it is while being offered (frame), '
+                    'every other step is census-neutral; single-slot invariant; every device change is a guarded transformer; a failure loses exactly the input part. '
+                    'Tie = fact tables + lock-step (full device contents after every event) + census monitor on the implementation.',
+        assumptions=['well-posed layouts: the decoder-built initial world passes the executable check wf_worldb (nothing downstream of a sink, everything empty)',
+                     'user callbacks are drawn from the scripted callback language (DESIGN.md appendix A)',
+                     'freshness of generated identities (no id generated twice) is by construction of the id counter, not a separate theorem']),
     'C05': dict(
         vfile='Props/C05.v', ties=['Tie/TieEnv.v', 'Tie/TieFloor.v'],
         families=[('floor', 400, 12000, 'small', 'large')],
@@ -219,12 +221,11 @@ LEVELS = {
         design_ref='DESIGN.md sections 0.3 and 8, C19', technique='Coq proof (suffix invariant, counter arithmetic, system invariant) + lock-step correspondence with the sensor classes',
         note='Trusted: Coq kernel, pyfacts.py, extraction + OCaml driver, Python harness.'),
     'C02': dict(
-        text='PARTIAL. Machine-checked: no single-slot device ever holds an input and an output part at once (every reachable state); every device change is a guarded transformer '
-             '(R_exec_fact): acceptance needs both slots empty, finishing moves that very part, identities never rewritten; a failure loses exactly the input part. '
-             'Not yet a theorem: the global census equation across devices (hand-over is a two-device step); it is decided on the implementation side by the census monitor '
-             'and by lock-step agreement of every device content after every event.',
+        text='Machine-checked Coq theorem: in every state reachable by any well-formed scenario (initialisation, calls, user events, steps, runs, any tie-break weights), for every part identity, '
+             'times generated = times inside a device + times delivered to a sink + times lost to a failure (C02_census_always), proved through the recursive hand-over (give/accept), '
+             'the frame of the offering phase and census-neutrality of all other steps; plus the single-slot invariant and the guards of every device change.',
         design_ref='DESIGN.md sections 0.3 and 8, C02', technique='Coq proof (per-device invariants over guarded transformers, induction over events) + lock-step correspondence + census monitor',
-        note='Partial: census equation validated, not proved. Trusted: Coq kernel, pyfacts.py, extraction + OCaml driver, Python harness.'),
+        note='The ghost lists made/delivered/lost live in the model only (never read by it). Trusted: Coq kernel, pyfacts.py, extraction + OCaml driver, Python harness.'),
     'C05': dict(
         text='Machine-checked Coq theorems: buffer level = number stored <= capacity, entry times sorted (FIFO), a part leaves only from the head and only after its minimum delay, '
              'for every reachable state of every layout/event order; tied by fact tables and lock-step.',
